@@ -459,6 +459,22 @@ func space2() {
 			w.Sample(map[string]interface{}{"program_sequence": sq, "vectors": len(vecs)})
 		}
 	}
+	// %i with other argument lists than "two integers": it adds 1 to whichever of the first
+	// two parameters exist (hpa / vpa style strings take one)
+	if hc.Mine(len(seqs) + 1) {
+		for _, p := range []string{"%i%p1%d", "\x1b[%i%p1%dG", "\x1b[%i%p1%dd", "<%i%p1%d>%p1%d", "%p1%d%i%p1%d"} {
+			for _, v := range [][]interface{}{{0}, {5}, {255}, {7, 9}} {
+				resetStatics()
+				c := tcase{p, v, "generated"}
+				if _, defined := compare(c, "generated"); defined {
+					w.Distinct(hc.Hash(p, fmt.Sprint(v)))
+					if len(v) == 1 {
+						nc = append(nc, c)
+					}
+				}
+			}
+		}
+	}
 	crossCheck(nc, "generated")
 }
 
